@@ -35,6 +35,20 @@ def l_cases(tier):
                 if no_int and etext == "1":
                     continue
                 out.append((etext, eterms, gtext, gfacs, no_int))
+    if tier != "quick":
+        # the whole family: every ordered list of <= 3 effect terms over the factor sets of {f, h, x}
+        # (and over {f, h, x, m}), every factor order as generated, with and without the intercept
+        seen = {(e, g, n) for e, _, g, _, n in out}
+        for vars_, kmax in ((["f", "h", "x"], 3), (["f", "h", "x", "m"], 3)):
+            subs = [":".join(c) for r in range(1, len(vars_) + 1) for c in itertools.combinations(vars_, r)]
+            for k in range(1, kmax + 1):
+                for combo in itertools.permutations(subs, k):
+                    etext = " + ".join(combo)
+                    for gtext, gfacs in (("g", ["g"]),) + ((("C(k)", ["C(k)"]),) if k == 1 and "m" not in etext else ()):
+                        for no_int in (False, True):
+                            if (etext, gtext, no_int) not in seen:
+                                seen.add((etext, gtext, no_int))
+                                out.append((etext, list(combo), gtext, gfacs, no_int))
     # separately written terms sharing a factor
     out.append(("@(1|g) + (0 + f|g)", ["f"], "g", ["g"], False))
     out.append(("@(0 + f|g) + (1|g)", ["f"], "g", ["g"], False))
